@@ -653,6 +653,12 @@ func propC02(t *rapid.T) {
 			ia := m.issued[rapid.IntRange(0, len(m.issued)-1).Draw(t, "stakeIdx")]
 			stk, _ := massutil.NewAddressStakingScriptHash(ia.Hash[:], config.ChainParams)
 			period := consensus.MinFrozenPeriod + uint64(rapid.IntRange(0, 5).Draw(t, "period"))
+			if rapid.IntRange(0, 3).Draw(t, "longPeriod") == 0 {
+				// any period up to 2^32-2 is legal (only the reward weight is capped): the script must carry
+				// exactly the period that was asked for
+				period = rapid.SampledFrom([]uint64{consensus.MASSIP0001MaxValidPeriod, consensus.MASSIP0001MaxValidPeriod + 1, 2000000, 1 << 24, 0xfffffffe}).Draw(t, "longPeriodValue")
+				c.labels["staking-period-beyond-the-reward-cap"] = true
+			}
 			v := int64(consensus.MinStakingValue) * int64(rapid.IntRange(1, 50).Draw(t, "stakeMul"))
 			what := fmt.Sprintf("staking(value=%d period=%d userFee=%d from=%q)", v, period, userFee, fromAddr)
 			c.reqs = append(c.reqs, what)
